@@ -276,30 +276,39 @@ func scopeCasesFor(p Prog, src, be, outdir string) (cases []ScopeCase, terms []s
 
 var _ = idlast.Program(nil)
 
-// scopeSelected samples the accepted runs that get scope cases: every corpus program under
-// every option set, generated programs under a rotating third of the option sets in the quick
-// tier and under all of them in the thorough tier.
-func scopeSelected(tier string, pi, oi, ncorpus int) bool {
-	if pi < ncorpus || tier == "thorough" {
+// scopeSelected samples the accepted runs that get scope cases.  Quick tier: the small corpus
+// programs under every option set, the large naming corpus under a rotating third and the
+// generated programs under a rotating quarter of the option sets; thorough tier: corpus under
+// every option set, generated programs under every second one.
+func scopeSelected(tier string, p Prog, pi, oi int) bool {
+	corpus := strings.HasPrefix(p.Name, "corpus-")
+	if tier == "thorough" {
+		return corpus || (pi+oi)%2 == 0
+	}
+	if corpus && p.Name != "corpus-naming" {
 		return true
 	}
-	return (pi+oi)%3 == 0
+	if corpus {
+		return (pi+oi)%3 == 0
+	}
+	return (pi+oi)%4 == 0
 }
 
-// scopeWriter writes scope cases into their own shards (scope_NNN.v / .jsonl): the terms are
-// large (a resolved AST each), so a shard holds only a few.
+// scopeWriter writes scope cases into their own shards (scope_NNN.v / .jsonl).  The terms are
+// large (a resolved AST each) and every shard pays about 10 s for loading the libraries, so a
+// shard is closed by size.
 type scopeWriter struct {
 	dir      string
-	perShard int
-	n        int
+	maxBytes int
+	n, bytes int
 	Total    int
 	Tables   int
 	Shards   []string
 	v, j     *os.File
 }
 
-func newScopeWriter(dir string, perShard int) *scopeWriter {
-	return &scopeWriter{dir: dir, perShard: perShard}
+func newScopeWriter(dir string, maxBytes int) *scopeWriter {
+	return &scopeWriter{dir: dir, maxBytes: maxBytes}
 }
 
 func (w *scopeWriter) Add(term string, desc ScopeCase) {
@@ -308,7 +317,7 @@ func (w *scopeWriter) Add(term string, desc ScopeCase) {
 		w.v, _ = os.Create(filepath.Join(w.dir, name+".v"))
 		w.j, _ = os.Create(filepath.Join(w.dir, name+".jsonl"))
 		w.Shards = append(w.Shards, name)
-		w.n = 0
+		w.n, w.bytes = 0, 0
 		fmt.Fprint(w.v, "From Verif Require Import Base.Bytes Gen.Namespace Idl.Ast Gen.Scope Corr.C01.\nFrom Coq Require Import List NArith ZArith String.\nImport ListNotations.\nOpen Scope string_scope.\nDefinition cases : list case := [\n")
 	}
 	if w.n > 0 {
@@ -318,9 +327,10 @@ func (w *scopeWriter) Add(term string, desc ScopeCase) {
 	b, _ := json.Marshal(desc)
 	w.j.Write(append(b, '\n'))
 	w.n++
+	w.bytes += len(term)
 	w.Total++
 	w.Tables += 1 + len(desc.Declared.Types)
-	if w.n >= w.perShard {
+	if w.bytes >= w.maxBytes {
 		w.closeShard()
 	}
 }
